@@ -973,6 +973,66 @@ def part_array_power(ctx, shard):
                     ctx.violation(base + "|mode=wrong-value", case, want.tolist(), got.tolist())
 
 
+def part_unit_exponent(ctx, shard):
+    """x ** e with e a dimensionless QUANTITY written in a scaled dimensionless unit (200 percent, 0.002 km/m are the
+    number 2): the result is x ** 2 whatever unit the exponent is written in; an exponent with a dimension is refused"""
+    world.reset_world()
+    EU = [("dimensionless", 1.0), ("percent", 0.01), ("km/m", 1000.0), ("cm/m", 0.01), ("s", None), ("rad", None)]
+    exps = {"scalar": np.array(2.0), "scalar-half": np.array(0.5), "uniform-1d": np.array([2.0, 2.0, 2.0]), "varying-1d": np.array([2.0, 3.0, 2.0]), "uniform-2d": np.full((2, 3), 3.0)}
+    for unit in shard:
+        u = Unit(unit)
+        sc, dim = float(u.base_value), dim_of(u.dimensions)
+        for (eu, se), (ename, e) in itertools.product(EU, exps.items()):
+            shape = e.shape if e.shape else (3,)
+            data = (np.arange(int(np.prod(shape)), dtype=float) % 4 + 1.5).reshape(shape)
+            E = (unyt_array(e / se, eu) if e.shape else unyt_quantity(float(e) / se, eu)) if se else (unyt_array(e, eu) if e.shape else unyt_quantity(float(e), eu))
+            forms = {
+                "operator": lambda x: x**E,
+                "np.power": lambda x: np.power(x, E),
+                "inplace": lambda x: (x.__ipow__(E), x)[1],
+                "scalar-base": lambda x: x.reshape(-1)[0] ** E,
+                "bare-base": lambda x: np.power(np.asarray(x.d), E),
+                "bare-scalar-base": lambda x: np.power(float(x.d.reshape(-1)[1]), E),
+            }
+            for form, f in forms.items():
+                ctx.count("evaluations")
+                ctx.count("transitions")
+                x = unyt_array(data.copy(), unit)
+                r = run_real(lambda: f(x))
+                bare = form.startswith("bare")
+                case = {"part": "unit-exponent", "unit": unit, "exp": ename, "eunit": eu, "form": form}
+                ctx.outcome(("uexp", ename, eu, form, r[0]))
+                base = f"C04|unit-exponent|exp={ename}|eunit={eu}|form={form}|base={'bare' if bare else 'dimensionless' if dim.dimensionless else 'dimensional'}"
+                if r[0] != "ok":
+                    ctx.count("refused")
+                    continue
+                ctx.decided(("uexp", unit, ename, eu, form))
+                res = r[1]
+                if se is None:
+                    ctx.violation(base + "|mode=exponent-with-a-dimension-accepted", case, "UnitOperationError", str(res)[:80])
+                    continue
+                uniform = bool(np.all(e == e.reshape(-1)[0]))
+                bdim = dim_of(1) if bare else dim
+                if not uniform and not bdim.dimensionless:
+                    ctx.violation(base + "|mode=mixed-powers-under-one-unit", case, "UnitOperationError", str(getattr(res, "units", None)))
+                    continue
+                b = data
+                if form == "scalar-base":
+                    b = data.reshape(-1)[0]
+                if form == "bare-scalar-base":
+                    b = data.reshape(-1)[1]
+                want = (b * (1.0 if bare else sc)) ** e
+                ru = getattr(res, "units", None)
+                gdim = dim_of(ru.dimensions) if ru is not None else dim_of(1)
+                wdim = bdim ** float(e.reshape(-1)[0]) if uniform else dim_of(1)
+                if gdim != wdim:
+                    ctx.violation(base + "|mode=wrong-dimension", case, str(wdim), str(ru))
+                    continue
+                got = np.asarray(getattr(res, "d", res), dtype=float) * (float(ru.base_value) if ru is not None else 1.0)
+                if got.shape != np.shape(want) or np.any(np.abs(got - want) > 256 * EPS * np.abs(want)):
+                    ctx.violation(base + "|mode=wrong-value", case, np.asarray(want).tolist(), got.tolist())
+
+
 # ---- operands of different widths ---------------------------------------------------------------------------------------
 WIDTH_DTYPES = ["float64", "float32", "float16", "int64", "int32", "int16"]
 
@@ -1066,6 +1126,7 @@ def run(ctx):
     harness.pmap(ctx, part_int_products, [[p] for p in (("pc", "1/cm"), ("Mpc", "1/mm"), ("km", "1/mm"), ("kg", "1/mg"), ("yr", "1/ns"), ("mm", "1/Mpc"), ("cm", "km"), ("Msun", "1/g"))])
     harness.pmap(ctx, part_initial, [[p] for p in (("km", "km"), ("km", "m"), ("m", "km"), ("hr", "s"), ("g", "kg"), ("K", "R"))])
     harness.pmap(ctx, part_array_power, [[u] for u in ("km", "hr/s", "dimensionless", "percent", "m/s")])
+    harness.pmap(ctx, part_unit_exponent, [[u] for u in ("km", "hr/s", "dimensionless", "percent", "m/s")])
     wpairs = [(a, b) for a in WIDTH_DTYPES for b in WIDTH_DTYPES if np.dtype(a).itemsize != np.dtype(b).itemsize]
     harness.pmap(ctx, part_widths, [[(up, dp)] for up in (("km", "m"), ("m", "km"), ("hr", "s"), ("m", "cm")) for dp in wpairs])
     return {
@@ -1107,6 +1168,9 @@ def replay(case):
         return list(ctx.violations.items())
     if case.get("part") == "array-power":
         part_array_power(ctx, [case["unit"]])
+        return list(ctx.violations.items())
+    if case.get("part") == "unit-exponent":
+        part_unit_exponent(ctx, [case["unit"]])
         return list(ctx.violations.items())
     if case.get("part") == "widths":
         part_widths(ctx, [(tuple(case["units"]), tuple(case["dtypes"]))])
